@@ -64,7 +64,7 @@ def sites(j, path=()):
     """Every address (tuple of keys/indices) of a value inside j, any depth."""
     out = []
     if isinstance(j, dict):
-        for k in j:
+        for k in sorted(j):      # not insertion order: library-written JSON may order members by hash seed
             out.append(path + (k,))
             out.extend(sites(j[k], path + (k,)))
     elif isinstance(j, list):
@@ -101,7 +101,7 @@ def dict_sites(j, path=()):
     out = []
     if isinstance(j, dict):
         out.append(path)
-        for k in j:
+        for k in sorted(j):
             out.extend(dict_sites(j[k], path + (k,)))
     elif isinstance(j, list):
         for i, v in enumerate(j):
